@@ -37,6 +37,7 @@ def gen_edge(g, ek=None, s=None, info_kind="spd", max_cond=1e8):
         "z": g.pose(kz, s=g.choice([s, 1.0])),
         "off": g.pose(ko, s=g.choice([s, 1.0, 0.0])) if ko else None,
         "info": g.sym_matrix(R.CDIM[kz], max_cond=max_cond, kind=info_kind),
+        "layout": g.choice(["C", "C", "C", "F", "strided", "readonly"]),
     }
     return case
 
@@ -46,7 +47,9 @@ def build_edge(case, ids=(0, 1)):
     ek = case["ek"]
     v1 = gs.Vertex(ids[0], gs.mk_pose(case["p1"]))
     v2 = gs.Vertex(ids[1], gs.mk_pose(case["p2"]))
-    info = np.array(case["info"], dtype=np.float64)
+    from .graphgen import _layout
+
+    info = _layout(np.array(case["info"], dtype=np.float64), case.get("layout", "C"))
     z = gs.mk_pose(case["z"])
     if ek.startswith("odo:"):
         e = gs.EdgeOdometry([ids[0], ids[1]], info, z, [v1, v2])
